@@ -705,14 +705,13 @@ def _merge_and_condition(chk, f):
                 continue        # the condition-false skip, decided above
             for path, facts in feasible_paths(cfg, it.id, [sk.id]):
                 prio_true = [k for k, v in facts.items() if v is True and ".priority" in k and ">" in k]
+                # the comparisons *as written* between a posted minimum and the handler's priority are strict, minimum on the greater side
                 shape_ok = True
-                for k in [k for k in facts if ".priority" in k]:
-                    try:
-                        e = ast.parse(k, mode="eval").body
-                    except SyntaxError:
-                        continue
-                    if isinstance(e, ast.Compare) and len(e.ops) == 1:
+                for tn in [t_ for t_ in cfg.nodes if t_.kind == "test" and _in_body(head.ast, t_.ast)]:
+                    for e in [x for x in ast.walk(tn.ast) if isinstance(x, ast.Compare) and len(x.ops) == 1]:
                         l, r = src(e.left), src(e.comparators[0])
+                        if not ((".priority" in l and "_min_priority" in r) or (".priority" in r and "_min_priority" in l)):
+                            continue
                         strict = (isinstance(e.ops[0], ast.Gt) and r.endswith(".priority") and "_min_priority" in l) or \
                                  (isinstance(e.ops[0], ast.Lt) and l.endswith(".priority") and "_min_priority" in r)
                         if not strict:
@@ -778,7 +777,8 @@ def _callbacks(chk, f_pe, f_rhs, f_peq, f_pqe):
         chk.ob("DOM-3", "callback call is outside the handler loop", not inloop, f_rhs.where(c),
                construct=f_rhs.ident, text="callback in loop")
         facts = {k: v for k, v in cfg.facts_at(n.id) if not k.startswith("self._debug") and k != "self._debug"}
-        extra = {k: v for k, v in facts.items() if k != "callback" and k != "event not in self.registered_handlers"}
+        extra = {k: v for k, v in facts.items() if k != "callback" and k not in ("event not in self.registered_handlers",
+                                                                                 "event in self.registered_handlers")}
         chk.ob("DOM-3", "callback call guarded only by `if callback`", facts.get("callback") is True and not extra,
                f_rhs.where(c), detail="facts %s" % sorted(facts.items()), construct=f_rhs.ident, text="callback guard")
         # all handler-loop exits lead to the callback (no return inside the loop skipping it)
